@@ -109,15 +109,15 @@ func c14Values(cs c14Case) (fs []F) {
 	for i, v := range sp {
 		pos := cs.C*i + cs.Chan
 		parent.SetSample(pos, v)
-		if g := ch.Sample(i); g != v {
+		if g := ch.Sample(i); !valSame(g, v) {
 			return append(fs, core.Failf("Channel/value", "%s C=%d channel %d: the parent's sample %d holds %v (bits %#x), the view reads %v (bits %#x) at index %d", cs.Type, cs.C, cs.Chan, pos, v, v.B, g, g.B, i))
 		}
 		w := sp[(i+1)%len(sp)]
 		ch.SetSample(i, w)
-		if g := parent.Sample(pos); g != w {
+		if g := parent.Sample(pos); !valSame(g, w) {
 			return append(fs, core.Failf("Channel/value", "%s C=%d channel %d: SetSample(%d, %v) through the view (bits %#x): the parent's sample %d reads %v (bits %#x)", cs.Type, cs.C, cs.Chan, i, w, w.B, pos, g, g.B))
 		}
-		if g := ch.Sample(i); g != w {
+		if g := ch.Sample(i); !valSame(g, w) {
 			return append(fs, core.Failf("Channel/value", "%s C=%d channel %d: SetSample(%d, %v) then Sample(%d) through the view reads %v (bits %#x, want %#x)", cs.Type, cs.C, cs.Chan, i, w, i, g, g.B, w.B))
 		}
 	}
